@@ -17,7 +17,7 @@ RULE = ("6 baseline scenarios (3 ticks each) that together configure every core 
         "cgroup x {remove, remove+re-create}; F5 seeded multi-faults. One process per case under ASan+UBSan+_GLIBCXX_ASSERTIONS. The run "
         "must finish all ticks with no sanitizer report, signal, abort, hang or exception out of Oomd::run(); absent/unreadable files must "
         "show up as unavailable statistics; statistics of the untouched control subtree must equal the fault-free run; C01 containment "
-        "must hold on the faulted trace. quick = F1-F3 on 2 baselines + sampled F4/F5; thorough = everything. "
+        "must hold on the faulted trace. Every baseline exists twice, with the all-reading probe ruleset first (warm caches) and last (cold); a listing of a cgroup's children (fdopendir) is an access point too, and a directed set removes each child just before its parent is listed. quick = F1-F3 on 2 baselines + sampled F4/F5 over all baselines; thorough = everything on the probe-first baselines, directed + 3000 sampled F4 on the probe-last ones. "
         "non-trivial = the fault was actually reached (faulted open observed / access index reached); distinct by (baseline, fault)")
 ASSUMPTIONS = ["faults are injected at the interposed libc boundary (ENOENT / EACCES / empty via /dev/null / a descriptor whose reads fail with EISDIR, standing in for kernfs ENODEV, EOPNOTSUPP, EIO) or as world mutations run just before access k",
                "tmpfs stands in for kernfs: a removed cgroup's held dir fd stays valid but its files are gone (openat -> ENOENT)"]
